@@ -186,10 +186,16 @@ outer:
 
 		// Check for stack overflow
 		if len(self.Stack) > int(self.Limits.StackMaxSize) {
+			// Blame the caller of the current function (if there is one).
+			blamedFrame := *self.callFrame()
+			if len(self.CallStack) >= 2 {
+				blamedFrame = self.CallStack[len(self.CallStack)-2]
+			}
+
 			self.SignalHandle <- self.fatalErr(
 				fmt.Sprintf("Runtime stack limit of %d was exceeded by %d", self.Limits.StackMaxSize, len(self.Stack)-int(self.Limits.StackMaxSize)),
 				value.VMFatalExceptionKind(value.Vm_StackOverFlowErrorKind),
-				self.parent.SourceMap(self.CallStack[len(self.CallStack)-2]),
+				self.parent.SourceMap(blamedFrame),
 			)
 			return
 		}
